@@ -1,7 +1,7 @@
 #!/usr/bin/env python3
 """Driver of the thread-interleaving engine (DESIGN.md 13.8).
 
-usage: run.py check <C18|C19|C20> <quick|thorough>
+usage: run.py check <C10|C18|C19|C20> <quick|thorough>
        run.py replay <replay file>
 
 The anemo-tower layers are driven by real threads under Miri; Miri's scheduler, seeded with
@@ -18,8 +18,8 @@ PREEMPTION = "0.05"
 # (cases, seeds per case) per tier; the case number selects limit / mode / thread count / senders
 # C20 cases 36.. are the crowd cases (hundreds of refusals per interleaving: fewer seeds)
 PLAN = {
-    "quick": {"C18": [(list(range(8)), 24)], "C19": [([1, 3, 5, 7, 9, 11, 13, 19], 24)], "C20": [([0, 1, 2, 4, 8, 10, 14, 22, 27, 38, 39], 24), ([36, 37], 8)]},
-    "thorough": {"C18": [(list(range(8)), 512)], "C19": [(list(range(24)), 256)], "C20": [(list(range(36)) + [38, 39], 256), ([36, 37], 96)]},
+    "quick": {"C10": [([0, 1], 24)], "C18": [(list(range(8)), 24)], "C19": [([1, 3, 5, 7, 9, 11, 13, 19], 24)], "C20": [([0, 1, 2, 4, 8, 10, 14, 22, 27, 38, 39], 24), ([36, 37], 8)]},
+    "thorough": {"C10": [([0, 1], 512)], "C18": [(list(range(8)), 512)], "C19": [(list(range(24)), 256)], "C20": [(list(range(36)) + [38, 39], 256), ([36, 37], 96)]},
 }
 
 
@@ -70,7 +70,7 @@ def write_replay(prop, case, seed, cls, key, msg):
     d = os.path.join(VERIF, "replays")
     os.makedirs(d, exist_ok=True)
     path = os.path.join(d, f"{prop}-threads-case{case}-seed{seed}-{re.sub(r'[^A-Za-z0-9-]', '_', cls)}.json")
-    json.dump({"engine": "miri", "property": prop, "scenario": "layers-under-threads", "case": case, "seed": seed, "preemption_rate": PREEMPTION,
+    json.dump({"engine": "miri", "property": prop, "scenario": "layers-under-threads" if prop != "C10" else "known-peer-table-under-threads", "case": case, "seed": seed, "preemption_rate": PREEMPTION,
                "class": cls, "key": key, "message": msg,
                "how": f"cd /verif/miri && MIRIFLAGS='-Zmiri-preemption-rate={PREEMPTION} -Zmiri-seed={seed}' cargo +nightly miri run --offline -- {prop} {case}"}, open(path, "w"), indent=1)
     return path
@@ -106,7 +106,7 @@ def check(prop, tier):
                 lo = seed + 1
                 continue
             path = write_replay(prop, case, seed, cls, key, msg)
-            print(f"scenario={prop.lower()}-layers-under-threads case={case} seed={seed} class={cls} key={key}: {msg}")
+            print(f"scenario={prop.lower()}-{'layers' if prop != 'C10' else 'known-peer-table'}-under-threads case={case} seed={seed} class={cls} key={key}: {msg}")
             violations.append(path)
             break
         if violations or harness:
@@ -128,18 +128,20 @@ def check(prop, tier):
         ev = {"property_id": prop, "tier": tier, "level": "exploration", "coverage": {"evaluations": 0, "distinct_nontrivial": 0, "rule": "", "samples": []}}
     cov = ev.setdefault("coverage", {})
     cov["thread_interleaving_engine"] = {
-        "what": "the real anemo-tower layer driven by 2-4 real threads (each one request through a clone, futures' block_on) under Miri's seeded scheduler with preemption at arbitrary points of synchronous code; one (case, seed) = one exactly repeatable interleaving",
+        "what": ("the real anemo-tower layer driven by 2-4 real threads (each one request through a clone, futures' block_on)" if prop != "C10" else "anemo's real KnownPeers table read by two threads (get, get_all: what admission and the background dialer do) while 1-2 threads insert and remove other entries") + " under Miri's seeded scheduler with preemption at arbitrary points of synchronous code; one (case, seed) = one exactly repeatable interleaving",
         "interleavings": runs, "cases": cases, "seeds_per_case": n_seeds, "preemption_rate": float(PREEMPTION),
         "interleavings_per_hour": int(runs / wall * 3600) if wall > 0 else 0,
         "known_findings_seen": [{"finding": f"{c} {k}", "interleavings": v[0], "text": v[1]} for (c, k), v in known_seen.items()],
         "violations": len(violations),
-        "components_real": ["anemo-tower layer under test", "governor / dashmap / tokio::sync (real code, interpreted)", "std threads, mutexes, atomics (Miri)"],
+        "components_real": ["anemo-tower layer under test" if prop != "C10" else "anemo::KnownPeers", "governor / dashmap / tokio::sync (real code, interpreted)", "std threads, mutexes, atomics (Miri)"],
         "components_stubbed": ["scheduler and clock (Miri: seeded preemption, virtual monotonic clock)", "wrapped service and callers (harness)", "governor's cycle-counter clock (manifest-only variant without quanta, as in the simulator)"],
     }
     cov["evaluations"] = cov.get("evaluations", 0) + runs
     ev["violations"] = ev.get("violations", 0) + len(violations)
     rule = cov.get("rule", "")
-    if "[layers-under-threads]" not in rule:
+    if prop == "C10" and "[known-peer-table-under-threads]" not in rule:
+        cov["rule"] = rule + " [known-peer-table-under-threads] one run = one (case, Miri seed): two reader threads look up entries nobody touches while 1-2 writer threads insert and remove other entries of the same KnownPeers table; distinct = each (case, seed)"
+    elif prop != "C10" and "[layers-under-threads]" not in rule:
         cov["rule"] = rule + " [layers-under-threads] one run = one (case, Miri seed): 2-4 real threads send their requests through clones of one layered service at the same moment; distinct = each (case, seed)"
     os.makedirs(os.path.dirname(ev_path), exist_ok=True)
     json.dump(ev, open(ev_path, "w"), indent=1)
